@@ -20,7 +20,7 @@ impl Scenario for MbcHistory {
         "mbc_history"
     }
     fn quick_runs(&self, _f: &str) -> u64 {
-        504 * 40
+        504 * 120
     }
     fn chunk(&self) -> u64 {
         504
